@@ -109,7 +109,18 @@ Definition check (c : case) : N :=
   | CMeth op key p o =>
     code (phyeqb (model_meth op key p) o)
          (match op with
-          | DecodeFOpts | DecodeFRM => negb (is_panic o)
+          | DecodeFOpts => negb (is_panic o)
+          | DecodeFRM =>
+            (* mac-commands are carried in the FRMPayload only when FPort = 0: on a frame with a payload and
+               another (or no) FPort the step is refused (the application octets stay application octets) *)
+            match pl p with
+            | PLMac m =>
+              match frm m, fport m with
+              | [], _ | _, Some 0 => negb (is_panic o)
+              | _, _ => is_err o
+              end
+            | _ => negb (is_panic o)
+            end
           | _ => transform_or_error phy_eqb (spec_meth op key p) o
           end)
   | CAesEnc k b o =>
